@@ -106,7 +106,10 @@ type endpoint struct {
 	// slow: the endpoint reads DATA slowly over a small socket buffer, so the relay's writer
 	// blocks and frames pile up in its output queue
 	slow bool
-	r                  *lib.RNG
+	// noReturn / noReturnConn: consumed stream / connection credit is never handed back, not
+	// even in the final greedy phase
+	noReturn, noReturnConn bool
+	r                      *lib.RNG
 	// continuation assembly
 	contStream  uint32
 	contBuf     []byte
@@ -395,7 +398,10 @@ func (e *endpoint) grantLoop(stop chan struct{}) {
 		if e.greedy {
 			pol = "greedy"
 		}
-		if e.pregrant {
+		if e.noReturnConn {
+			e.debtConn = 0
+		}
+		if e.pregrant || e.noReturn {
 			// consumed stream credit is never returned: the up-front grant covers every body
 			for id := range e.debtStream {
 				e.debtStream[id] = 0
